@@ -88,6 +88,8 @@ class Evaluator:
         self.depth = 0
         self.identity_tests = []         # `this == &rhs`-style branches met (evaluated as "distinct objects" unless self.alias)
         self.alias = False
+        self._file_cache = {}
+        self.helpers = {}                # name -> [decl] of library helper functions (namespace detail) whose bodies are followed
 
     # ---- helpers ---------------------------------------------------------
     def kids(self, n):
@@ -209,8 +211,22 @@ class Evaluator:
 
     def _unresolved_member_name(self, n):
         # clang's JSON has no name for UnresolvedMemberExpr; recover from the source text
-        txt = self.d.text(n)
         import re
+        # inside a macro body the expansion range covers the macro invocation: read the token at the spelling location instead
+        for end in ("end", "begin"):
+            loc = ((n.get("range") or {}).get(end) or {})
+            sp = loc.get("spellingLoc")
+            if sp and sp.get("offset") is not None and sp.get("tokLen"):
+                f = sp.get("file") or (loc.get("expansionLoc") or {}).get("file")
+                try:
+                    src = self._file_cache.setdefault(f, open(f, "rb").read()) if f else None
+                except (OSError, AttributeError):
+                    src = None
+                if src is not None:
+                    tok = src[sp["offset"]:sp["offset"] + sp["tokLen"]].decode("utf-8", "replace")
+                    if re.fullmatch(r"[A-Za-z_]\w*", tok) and tok != "this":
+                        return tok
+        txt = self.d.text(n)
         m = re.search(r"([A-Za-z_]\w*)\s*$", txt.split("(")[0])
         return m.group(1) if m else "?"
 
@@ -268,6 +284,21 @@ class Evaluator:
         name = callee.get("name") or (callee.get("referencedDecl") or {}).get("name")
         if name is None:
             raise Unknown("call through %s" % ck)
+        if name in self.helpers and self.depth <= 4:
+            for h in self.helpers[name]:
+                ps = [c for c in self.kids(h) if c.get("kind") == "ParmVarDecl"]
+                if len(ps) != len(args):
+                    continue
+                env2 = {}
+                if "this" in env:
+                    env2["this"] = env["this"]
+                for p_, a_ in zip(ps, args):
+                    env2[p_["id"]] = self.ev(a_, env)
+                self.depth += 1
+                try:
+                    return self.run_body(h, env2)
+                finally:
+                    self.depth -= 1
         if name in MISSING_FACTORIES:
             return ("opt", False, None)
         if name in PASS_THROUGH_CALLS and len(args) == 1:
@@ -415,11 +446,39 @@ class Evaluator:
         return r if r is not None else ("void",)
 
     def stmts(self, ss, env):
-        for s in ss:
+        for i, s in enumerate(ss):
+            if s.get("kind") == "IfStmt":
+                sel = self.value_select(s, ss[i + 1:], env)
+                if sel is not None:
+                    return sel
             r = self.stmt(s, env)
             if r is not None:
                 return r
         return None
+
+    def value_select(self, s, rest, env):
+        """`if (c) return A; [else] return B;` on a VALUE c (not a presence test): the statement form of `c ? A : B`"""
+        def only_return(n):
+            while n is not None and n.get("kind") == "CompoundStmt" and len(self.kids(n)) == 1:
+                n = self.kids(n)[0]
+            return n if n is not None and n.get("kind") == "ReturnStmt" and self.kids(n) else None
+        kids = self.kids(s)
+        then = only_return(kids[1]) if len(kids) > 1 else None
+        other = only_return(kids[2]) if len(kids) > 2 else (only_return(rest[0]) if rest else None)
+        if then is None or other is None:
+            return None
+        t0 = ir_sx(kids[0])
+        if t0[0] == "bin" and t0[1] in ("==", "!=") and any(x == ("this",) for x in subterms_(t0)):
+            return None
+        try:
+            c = self.rv(kids[0], env)
+        except Unknown:
+            return None
+        if self.as_bool(c) is not None:
+            return None
+        t = self.ev(self.kids(then)[0], env)
+        f = self.ev(self.kids(other)[0], env)
+        return ("term", ("op", "?:", [self.as_term(c), self.as_term(t), self.as_term(f)]))
 
     def stmt(self, s, env):
         k = s.get("kind")
